@@ -511,19 +511,32 @@ class Check(PropertyCheck):
         return r.data
 
     TIMEOUT = 20      # seconds; "returns text" also means: returns
-    case_timeout = 45
+    case_timeout = 150
 
     def on_timeout(self, case):
         # the inner guard in impl() normally fires first; this is the runner-level fallback
         return [f"content view did not return within {self.case_timeout} s ({case.get('view')!r}, {case.get('msg')})"]
 
     def impl(self, case):
+        # a wall-clock limit turns a view that never returns into an observation; on a loaded machine a starved worker can
+        # exceed it without any hang, so a timeout is only reported when a second attempt with four times the limit times out too
+        obs = self._impl_limited(case, self.TIMEOUT)
+        if "did not return within" in str(obs.get("exc") or "") and not Check._confirmed_hang:
+            obs = self._impl_limited(case, 4 * self.TIMEOUT)
+            if "did not return within" in str(obs.get("exc") or ""):
+                Check._confirmed_hang = True      # a real hang exists: later timeouts (shrinking) are taken at the short limit
+        Check._last = (json.dumps(case, sort_keys=True), obs)
+        return obs
+
+    _confirmed_hang = False
+
+    def _impl_limited(self, case, limit):
         import signal
 
         def on_alarm(*a):
-            raise BaseException("view did not return within %d s" % self.TIMEOUT)
+            raise BaseException("view did not return within %d s" % limit)
         old = signal.signal(signal.SIGALRM, on_alarm)
-        signal.setitimer(signal.ITIMER_REAL, self.TIMEOUT)
+        signal.setitimer(signal.ITIMER_REAL, limit)
         try:
             obs = self._impl(case)
         except BaseException as e:
@@ -532,7 +545,6 @@ class Check(PropertyCheck):
         finally:
             signal.setitimer(signal.ITIMER_REAL, 0)
             signal.signal(signal.SIGALRM, old)
-        Check._last = (json.dumps(case, sort_keys=True), obs)
         return obs
 
     def _impl(self, case):
